@@ -1,5 +1,6 @@
 import GV.Drv.Orch
 import GV.Drv.KC
+import GV.Drv.Eval
 open Lean GV.Drv
 
 def handle (line : String) : String :=
@@ -9,6 +10,7 @@ def handle (line : String) : String :=
     match jStr j "scn" with
     | "orch" => (orchCase j).compress
     | "kc" => (kcCase j).compress
+    | "eval" => (evalCase j).compress
     | s => (Json.mkObj [("i", jObj j "i"), ("error", Json.str s!"unknown scenario {s}")]).compress
 
 partial def loop (h : IO.FS.Stream) (out : IO.FS.Stream) : IO Unit := do
